@@ -147,6 +147,20 @@ Definition agree (k : case) : bool :=
       (if unroll_domain C n sio p && unroll_names_okb (c_g C) n sio p
        then bool_decide (norm obs = Ok ({| c_name := "circuit"; c_g := unroll_closed (c_g C) n sio p; c_bbs := ∅ |}, unroll_iomap (c_g C) n p))
        else true)
-  | CSeq C n d q ign afo iv ru p obs => bool_decide (sequential_unroll C n d q ign afo iv ru p = norm obs)
+  | CSeq C n d q ign afo iv ru p obs =>
+      bool_decide (sequential_unroll C n d q ign afo iv ru p = norm obs) &&
+      (* inside the guards: the hypotheses of C09_sequential_simulates_partial hold for the recorded result
+         (it is the plain unrolling of the stripped circuit up to output marks and step-0 constants) *)
+      (if seq_domain C n d q p then
+         match seq_stripped C d q ign ru, norm obs with
+         | Ok (CS, sio), Ok (U, m) =>
+             let cs := c_g CS in
+             closedb cs && acyclicb cs && bool_decide (free_nodes cs = inputs cs) &&
+             bool_decide (NoDup (unroll_nodes cs n sio p).*1) &&
+             forallb (λ kv, bool_decide (kv.1 ∈ io_of cs) && bool_decide (kv.2 ∈ inputs cs)) sio &&
+             weakerb (unroll_closed cs n sio p) (c_g U) && bool_decide (m = unroll_iomap cs n p)
+         | _, _ => true
+         end
+       else true)
   end.
 
